@@ -1,6 +1,9 @@
 package rules
 
 import (
+	"go/ast"
+	"go/token"
+	"go/types"
 	"fmt"
 	"sort"
 	"strings"
@@ -131,6 +134,63 @@ func c18(c *Ctx) {
 						}
 					}
 					r.Check(okRegion, "R-C18.2", construct+" same locked region as the test", p.Pos(sd.Pos()), "flag tested and send performed under one read lock", "the read lock is released between testing closed and sending")
+				}
+				// R-C18.2 (delegated): the channel and the flag value are handed to a package-local free function that
+				// performs the send; the call site supplies the lock state and the flag load, the helper the guard
+				if cc, ok := in.(*ssa.Call); ok {
+					if h := cc.Common().StaticCallee(); h != nil && h.Pkg == fn.Pkg && h.Signature.Recv() == nil && len(h.Blocks) > 0 && !ast.IsExported(h.Name()) && len(h.Params) == len(cc.Call.Args) {
+						chAt, flagAt := -1, -1
+						for i, a := range cc.Call.Args {
+							if _, isCh := a.Type().Underlying().(*types.Chan); isCh && core.PathOf(a).HasFields("incoming") {
+								chAt = i
+							}
+							if ld, isLd := core.Strip(a).(*ssa.UnOp); isLd && ld.Op == token.MUL && core.PathOf(ld).HasFields("closed") {
+								flagAt = i
+							}
+						}
+						for _, hb := range h.Blocks {
+							for _, hin := range hb.Instrs {
+								sd, isSend := hin.(*ssa.Send)
+								if !isSend || chAt < 0 || core.Strip(sd.Chan) != ssa.Value(h.Params[chAt]) {
+									continue
+								}
+								nSend++
+								s := li.Before[in]
+								construct := fmt.Sprintf("%s send#%d on incoming (in %s)", name, nSend, h.Name())
+								r.Check(s == core.LRead, "R-C18.2", construct+" lock", p.Pos(cc.Pos()), "the delegating call is inside the read-locked region", "send on incoming while holding "+s.String()+" (Close may close the channel concurrently: send on closed channel panics)")
+								if flagAt < 0 {
+									r.Bad("R-C18.2", construct+" after closed==false", p.Pos(cc.Pos()), "the helper that sends does not receive the value of the closed flag")
+									continue
+								}
+								fp := ssa.Value(h.Params[flagAt])
+								gOpen := core.Guard{Name: "NotFlag(l.closed)", Match: func(cond ssa.Value) (int, bool) {
+									if cond == fp {
+										return 1, true
+									}
+									return 0, false
+								}}
+								res := core.CutReach(p, h, gOpen, hb)
+								r.CutOb(p, "R-C18.2", construct+" after closed==false", p.Pos(sd.Pos()), res, gOpen)
+								// same region: the flag is loaded under the read lock in the block of the call and the lock is held
+								// at every instruction from the load to the call
+								ld := core.Strip(cc.Call.Args[flagAt]).(*ssa.UnOp)
+								okRegion := ld.Block() == b && li.Before[ld] == core.LRead
+								seen := false
+								for _, x := range b.Instrs {
+									if x == ssa.Instruction(ld) {
+										seen = true
+									}
+									if seen && li.Before[x] != core.LRead {
+										okRegion = false
+									}
+									if x == in {
+										break
+									}
+								}
+								r.Check(okRegion, "R-C18.2", construct+" same locked region as the test", p.Pos(cc.Pos()), "flag loaded and send delegated under one read lock", "the read lock is released between loading closed and the delegated send")
+							}
+						}
+					}
 				}
 				// R-C18.3
 				if cc, ok := in.(*ssa.Call); ok && core.CalleeName(cc.Common()) == "builtin:close" && core.PathOf(cc.Call.Args[0]).HasFields("incoming") {
